@@ -11,7 +11,7 @@ from selftest.harness import run_check
 
 PY = "/venv/bin/python"
 ROOT = "/verif/fix_twins"
-checks = [f"C{i:02d}" for i in range(1, 21)]
+checks = os.environ.get("HC_CHECKS", "").split(",") if os.environ.get("HC_CHECKS") else [f"C{i:02d}" for i in range(1, 21)]
 
 
 def evaluate(tid: str, base: dict) -> dict:
